@@ -5,7 +5,7 @@
     peel, the bit iterator and the u16 table-walking decoder at every alignment; that part of the
     property is decided by the correspondence (the executable model below agrees with the crate on
     bit ranges and decoded symbols exactly) and by the implementation-side oracle. *)
-From FC Require Import Base.Res Region.Region Huffman.Huffman Huffman.HuffOpt Huffman.HuffTree.
+From FC Require Import Base.Res Region.Region Huffman.Huffman Huffman.HuffOpt Huffman.HuffTree Huffman.Bits Huffman.BitIter.
 From Coq Require Import ZArith Permutation Sorted.
 
 (** The greedy (Huffman) cost on the sorted weights is a lower bound for EVERY pairing of the
@@ -41,6 +41,17 @@ Theorem C06_build_spec : forall fuel heap tv ts,
     Permutation (lsw t) (concat (map lsw ts)) /\
     length tv' = length tv + 2 * length heap - 1.
 Proof. exact build_spec. Qed.
+
+(** BitIterator is exact at EVERY alignment: for every bit range [lo, hi) inside a byte string --
+    whatever byte offsets it starts and ends at, spanning 0, 1 or many whole bytes -- the chunks
+    it yields concatenate to exactly the bits lo..hi of the string; every chunk holds 1..8 bits and
+    its value fits in them (the place where the u8 mask overflowed, D2). *)
+Theorem C06_bit_iterator_exact : forall bytes fuel lo hi,
+  lo <= hi -> hi <= 8 * length bytes -> hi - lo < fuel ->
+  exists cs, bit_chunks fuel bytes lo hi = Ok cs /\
+    concat (map chunk_bits cs) = firstn (hi - lo) (skipn lo (bitstr bytes)) /\
+    Forall (fun c : N * nat => 1 <= snd c <= 8 /\ (fst c < 2 ^ N.of_nat (snd c))%N) cs.
+Proof. exact bit_chunks_spec. Qed.
 
 (** raw mode (before any merge and after clear) stores the symbols themselves *)
 Theorem C06_raw_roundtrip : forall raw stats v,
